@@ -264,6 +264,18 @@ def check_post_selection_functions(idx: Index, rep: Report, rule: str):
         ok = _eq(r, {"abcd": c1 / (c1 + c2), "abXd": c2 / (c1 + c2)})
         rep.decide(ok, rule, pf, pf.node, text="post_select({4: 'e'}) keeps matching outcomes, removes the position, renormalises", what="post-selected frequencies are renormalised over the kept outcomes",
                    reason=f"got {r}")
+        c4 = sp.Symbol("c4", positive=True)
+        fo2 = cs.make_folder(idx, POST)
+        r = fo2.run_function(pf.node, {"freqs": {"abcde": c1, "abXde": c2, "pqcde": c3, "abcdZ": c4}, "expected_outcomes": {0: "a", 4: "e"}})
+        ok = _eq(r, {"bcd": c1 / (c1 + c2), "bXd": c2 / (c1 + c2)})
+        rep.decide(ok, rule, pf, pf.node, text="post_select({0: 'a', 4: 'e'}) keeps only outcomes matching every requested position",
+                   what="post-selection on several positions keeps the outcomes that match all of them (the requested branch), removes those positions and renormalises",
+                   reason=f"got {r}")
+        fo2 = cs.make_folder(idx, POST)
+        mid, fin = fo2.run_function(sf.node, {"frequencies": {"abcde": c1, "aYcdP": c2, "WbcdQ": c3, "WYXdR": c1}, "indices": [0, 1], "desired_measurement": "ab"})
+        ok = _eq(fin, {"cde": sp.Integer(1)})
+        rep.decide(ok, rule, sf, sf.node, text="split with requested outcome 'ab' over two positions: only the branch matching both positions remains",
+                   what="with a requested mid-circuit outcome string the final distribution is that of the branch matching the whole string", reason=f"got {fin}")
         st = idx.function(f"{POST}::strip_post_selection")
         fo2 = cs.make_folder(idx, POST)
         r = fo2.run_function(st.node, {"freqs": dict(base), "qubits": (2,)})
